@@ -587,6 +587,24 @@ def expand_macros(text, macros, hits, depth=0):
             return text
 
 
+def r12_unsafe_blocks(text, hits):
+    """R12 (only on request, //@opaque_unsafe): `unsafe { ... }` statement blocks (FFI calls through raw
+    pointers) -> `verif_unsafe_ffi();`.  The block's effect on Rust-visible state is assumed to be nil."""
+    while True:
+        m = mask(text)
+        mm = None
+        for cand in re.finditer(r'\bunsafe\s*\{', text):
+            if m[cand.start()] == CODE:
+                mm = cand
+                break
+        if not mm:
+            return text
+        o = mm.end() - 1
+        c = match_close(text, m, o)
+        text = _sub(text, mm.start(), c + 1, 'verif_unsafe_ffi();')
+        _count(hits, 'R12.unsafe_block_opaque')
+
+
 ALL_RULES = ['R2', 'R1', 'R7', 'R3', 'R4', 'R5', 'R6']
 
 
